@@ -43,6 +43,7 @@ def build_program(schema: L.Schema, optimize: bool, endian: str, big: bool) -> T
             ast = CI.clang_ast(os.path.join(d, cfile), [os.path.join(loader.REPO, "lib/c"), d],
                                ["BP_BIG_ENDIAN"] if big else [])
             prog.add_ast(ast, cfile)
+        prog.native = {"outs": outs, "optimize": optimize, "main": schema.fname().replace(".bitproto", "_bp")}
         return prog, outs
     finally:
         shutil.rmtree(d, ignore_errors=True)
@@ -112,6 +113,69 @@ def storage_value(term, ctype: TInt, r: L.Ty):
     return z3.SignExt(W - ctype.bits, t) if ctype.signed else z3.ZeroExt(W - ctype.bits, t)
 
 
+def _cval(x):
+    x = z3.simplify(x) if z3.is_expr(x) else x
+    if z3.is_expr(x):
+        if not z3.is_bv_value(x):
+            raise ValueError("not concrete")
+        return x.as_long()
+    return int(x)
+
+
+def native_run(E, prog, msg: L.Message, mode: str, leaves, data: list, label: str):
+    """Replay on the REAL tool chain (little-endian host only): the generated C (+ lib/c/bitproto.c in standard mode) is compiled
+    with cc and run on the counter-model's concrete inputs; the bytes / fields it prints are compared with the reference layout.
+    Called only during concrete re-execution of a refuted obligation; never part of a proof."""
+    import subprocess
+    info = {"label": label, "mode": mode, "ran": False}
+    if not hasattr(E, "native_runs"):
+        E.native_runs = []
+    E.native_runs.append(info)
+    nat = getattr(prog, "native", None)
+    if nat is None:
+        info["why_not"] = "sources not kept"
+        return
+    d = tempfile.mkdtemp(dir=build.scratch())
+    try:
+        for fn, txt in nat["outs"].items():
+            with open(os.path.join(d, fn), "w") as f:
+                f.write(txt)
+        sname = c_struct_name(msg)
+        n = len(data)
+        src = ['#include "%s.h"' % nat["main"], "#include <stdio.h>", "#include <string.h>", "#include <stdint.h>", "int main(void) {",
+               "  struct %s m; memset(&m, 0, sizeof m);" % sname, "  unsigned char s[%d];" % max(n, 1), "  memset(s, 0, sizeof s);"]
+        if mode == "encode":
+            for path, st, r, ctype in leaves:
+                src.append("  { uint64_t t = 0x%xULL; memcpy(&m%s, &t, sizeof(m%s)); }" % (_cval(st) & (2 ** 64 - 1), path, path))
+            src += ["  Encode%s(&m, s);" % sname, "  for (int k = 0; k < %d; k++) printf(\"%%02x\\n\", s[k]);" % n]
+        else:
+            for k, b in enumerate(data):
+                src.append("  s[%d] = 0x%02x;" % (k, _cval(b) & 255))
+            src.append("  Decode%s(&m, s);" % sname)
+            for path, _, r, ctype in leaves:
+                src.append("  printf(\"%%llx\\n\", (unsigned long long)(%s)m%s);" % ("long long" if ctype.signed else "unsigned long long", path))
+        src += ["  return 0;", "}"]
+        with open(os.path.join(d, "replay_main.c"), "w") as f:
+            f.write("\n".join(src) + "\n")
+        cfiles = ["replay_main.c"] + [fn for fn in nat["outs"] if fn.endswith(".c")]
+        cmd = ["cc", "-O0", "-w", "-I", os.path.join(loader.REPO, "lib/c"), "-I", d, "-o", "replay_bin"] + cfiles
+        if not nat["optimize"]:
+            cmd.append(os.path.join(loader.REPO, "lib/c/bitproto.c"))
+        cp = subprocess.run(cmd, cwd=d, capture_output=True, text=True, timeout=120)
+        if cp.returncode != 0:
+            info["why_not"] = "cc failed: " + cp.stderr[-400:]
+            return
+        rp = subprocess.run([os.path.join(d, "replay_bin")], cwd=d, capture_output=True, text=True, timeout=20)
+        info.update(ran=True, exit=rp.returncode, harness="\n".join(src))
+        got = [int(x, 16) for x in rp.stdout.split()]
+        info["got"] = got
+        return got
+    except Exception as e:          # best effort: a failed native replay never changes a verdict
+        info["why_not"] = repr(e)
+    finally:
+        shutil.rmtree(d, ignore_errors=True)
+
+
 def run_encode(E: EN.Engine, prog: CI.Program, msg: L.Message, big: bool, label="encode"):
     """Encode<M>(m, s) with s zeroed and *m holding ARBITRARY storage contents in integer fields (bool objects hold
     0/1: type invariant) writes exactly the reference bytes of the fields' low n bits, inside s[0..nbytes)."""
@@ -139,6 +203,14 @@ def run_encode(E: EN.Engine, prog: CI.Program, msg: L.Message, big: bool, label=
         return
     # the value the spec encodes is the field's low n bits of its storage
     exp = L.bytes_of(L.enc(msg, v), n)
+    if E.concrete is not None and not big:
+        try:
+            got_n = native_run(E, prog, msg, "encode", leaves, list(exp), "%s/%s" % (E.proof_id, label))
+            if got_n is not None:
+                want_n = [_cval(b) for b in exp]
+                E.native_runs[-1].update(want=want_n, differs_from_reference=(got_n != want_n))
+        except ValueError:
+            pass
     for k in range(n):
         got = s.data[k]
         got = got if z3.is_expr(got) else z3.BitVecVal(got, 8)
@@ -173,6 +245,14 @@ def run_decode(E: EN.Engine, prog: CI.Program, msg: L.Message, big: bool, label=
     out: list = []
     _read(it, m, 0, st, msg, out)
     want = project(v) if project else v
+    if E.concrete is not None and not big:
+        try:
+            got_n = native_run(E, prog, msg, "decode", out, list(bs), "%s/%s" % (E.proof_id, label))
+            if got_n is not None:
+                want_n = [_cval(w) & (2 ** 64 - 1) for (_, w, _) in L.leaves_of(msg, want)]
+                E.native_runs[-1].update(want=want_n, differs_from_reference=(got_n != want_n))
+        except ValueError:
+            pass
     for (path, got, r, ctype), (_, w, _) in zip(out, L.leaves_of(msg, want)):
         E.oblige("%s/field%s" % (label, path), storage_value(got, ctype, r) == w)
         # the storage type is the smallest covering one with the right signedness (C03)
